@@ -11,6 +11,9 @@ import hashlib
 from typing import Dict, List, Optional, Iterable, Tuple
 
 
+ALPHA = True        # alpha-normalise locals back to reference names (sa/alpha.py)
+
+
 class AnalysisError(Exception):
     """The analysis itself is broken (anchor vanished, floor missed, ...): exit 2."""
 
@@ -98,7 +101,10 @@ class Repo:
         self.classes: Dict[str, ClassInfo] = {}
         self.parents: Dict[int, ast.AST] = {}
         self.owner: Dict[int, FuncInfo] = {}
+        self.renamed: Dict[str, Dict[str, str]] = {}
         self._load()
+        if ALPHA:
+            self._alpha()
 
     # ------------------------------------------------------------------ load
     def _load(self):
@@ -165,6 +171,20 @@ class Repo:
                 # TYPE_CHECKING blocks etc.
                 for fld in ('body', 'orelse', 'finalbody'):
                     self._index_scope(m, getattr(st, fld, []) or [], prefix, cls)
+
+    def _alpha(self):
+        from .alpha import load_table, normalise
+        table = load_table()
+        if not table:
+            return
+        for q, f in self.functions.items():
+            if q in table:
+                try:
+                    ren = normalise(q, f.node, table)
+                except RecursionError:
+                    ren = {}
+                if ren:
+                    self.renamed[q] = ren
 
     # --------------------------------------------------------------- lookup
     def func(self, qual: str) -> FuncInfo:
